@@ -258,6 +258,13 @@ void TasmanianSparseGrid::makeFourierGrid(int dimensions, int outputs, int depth
 
 void TasmanianSparseGrid::copyGrid(const TasmanianSparseGrid *source, int outputs_begin, int outputs_end){
     if (outputs_end == -1) outputs_end = source->getNumOutputs();
+    if (source == this){ // copying a grid onto itself, clear() must not wipe the source
+        if (outputs_begin == 0 && outputs_end == getNumOutputs()) return;
+        TasmanianSparseGrid restricted;
+        restricted.copyGrid(this, outputs_begin, outputs_end);
+        *this = std::move(restricted);
+        return;
+    }
     clear();
     if (!source->empty()){
         if (source->isGlobal()){
